@@ -15,7 +15,9 @@ Emits coq/Model/Tables_effects.v with
         examples/ and #[cfg(test)] modules excluded; comments removed), of an OS-effect API, with file, enclosing
         fn, the argument expression, the binding of a bare-identifier argument / receiver, and the enclosing
         string-literal match arm.  Plus the callers of the functions that contain a write site and the tail
-        expression of the path helper they use.
+        expression of the path helper they use, plus (KLocal) how every local variable that these path expressions
+        mention is computed inside its fn — all `let` bindings incl. shadowing and tuple/Some patterns, in-place
+        method-call statements (`tmp_name.push(".tmp")`) and assignments, transitively.
   (iv)  default_address: the literal of `static DEFAULT_ADDRESS` in harper-ls/src/main.rs.
 Raises (class Shape) when something no longer has the shape it knows."""
 import os, re, sys, glob
@@ -292,6 +294,67 @@ def binding_of(code, skel, fn, ident, pos):
     return found
 
 
+_RUST_WORDS = {"as", "async", "await", "break", "const", "continue", "crate", "dyn", "else", "enum", "false", "fn", "for", "if", "impl",
+               "in", "let", "loop", "match", "mod", "move", "mut", "pub", "ref", "return", "self", "static", "struct", "super", "trait",
+               "true", "type", "unsafe", "use", "where", "while"}
+
+
+def _idents(expr):
+    """bare lower-case identifiers of an expression (as written): not a field / method / path segment / call / macro"""
+    e = re.sub(r'b?"(?:\\.|[^"\\])*"', '""', expr)
+    return [w for w in re.findall(r"(?<![\w\.:])[a-z_]\w*\b(?!\s*(?:\(|::|!))", e) if w not in _RUST_WORDS]
+
+
+def _expr_end(skel, s):
+    j, pd = s, 0
+    while j < len(skel):
+        c = skel[j]
+        if c in "([":
+            pd += 1
+        elif c in ")]":
+            pd -= 1
+        elif pd == 0 and (c == ";" or c == "{"):
+            break
+        j += 1
+    return j
+
+
+def local_rows(rel, code, skel, fn, exprs):
+    """KLocal rows: how the local variables that the path expressions `exprs` of the write sites of `fn` mention are
+    computed, transitively: every `let [mut] x = e` / `let Some(x) = e` of x inside fn (shadowing included), every
+    statement `x.method(args);` (in-place mutation such as push) and every assignment `x = e;` / `x op= e;`.
+    An identifier without any such statement is a parameter / an outer item and gets no row."""
+    a, b = fn[1], fn[2]
+    rows, seen, todo = [], set(), []
+    for e in exprs:
+        todo += _idents(e)
+    while todo:
+        x = todo.pop(0)
+        if x in seen:
+            continue
+        seen.add(x)
+        found = []
+        xe = re.escape(x)
+        for m in re.finditer(r"\blet\s+(mut\s+)?(Some\(\s*%s\s*\)|Ok\(\s*%s\s*\)|%s)\s*(?::[^=]+)?=(?!=)\s*" % (xe, xe, xe), skel[a:b]):
+            s0 = a + m.end()
+            j = _expr_end(skel, s0)
+            found.append((a + m.start(), "let " + norm(m.group(2)), re.sub(r"\belse$", "", norm(code[s0:j]))))
+        for m in re.finditer(r"\blet\s+\(([^()=]*)\)\s*(?::[^=]+)?=(?!=)\s*", skel[a:b]):
+            if x in [w.strip().replace("mut ", "") for w in m.group(1).split(",")]:
+                s0 = a + m.end()
+                found.append((a + m.start(), "let (%s)" % norm(m.group(1)), norm(code[s0:_expr_end(skel, s0)])))
+        for m in re.finditer(r"(?<=[;{}])\s*%s\s*\.\s*(\w+)\s*\(" % xe, skel[a:b]):
+            o = a + m.end() - 1
+            found.append((a + m.start(), "%s.%s" % (x, m.group(1)), norm(code[o + 1:match_paren(skel, o)])))
+        for m in re.finditer(r"(?<=[;{}])\s*%s\s*([-+*/|&^]?=)(?!=)\s*" % xe, skel[a:b]):
+            s0 = a + m.end()
+            found.append((a + m.start(), "%s %s" % (x, m.group(1)), norm(code[s0:_expr_end(skel, s0)])))
+        for _, api, arg in sorted(found):
+            rows.append(dict(file=rel, fn=fn[0], kind="KLocal", api=api, arg=arg, bind="", arm=""))
+            todo += _idents(arg)
+    return rows
+
+
 NET_PATH = r"\b(?:std|core|tokio|mio|async_std|smol)::net\b"
 # (kind, api label or None = matched text, regex, takes_args)
 CALLS = [
@@ -393,6 +456,21 @@ def scan_file(rel, src):
                     bind = binding_of(code, skel, fn, probe, pos)
             sites.append(dict(file=rel, fn=fn[0] if fn else "<module>", kind=kind, api=api, arg=arg, bind=bind,
                               arm=enclosing_arm(code, skel, depth, fn, pos)))
+    # dataflow of the locals that the path arguments of the write sites are computed from (per enclosing fn)
+    by_fn = {}
+    for st in sites:
+        if st["kind"] == "KFsWrite" and st["fn"] != "<module>":
+            by_fn.setdefault(st["fn"], []).extend([st["arg"], st["bind"]])
+    for fname in sorted(by_fn):
+        cands = [f for f in fns if f[0] == fname]
+        if len(cands) != 1:
+            raise Shape("%s: %d functions named %s hold a write site: cannot attribute local definitions" % (rel, len(cands), fname))
+        seen_rows = set()
+        for r in local_rows(rel, code, skel, cands[0], by_fn[fname]):
+            key = (r["api"], r["arg"])
+            if key not in seen_rows:
+                seen_rows.add(key)
+                sites.append(r)
     # inline mentions of a net path outside `use`
     for m in re.finditer(NET_PATH + r"(?:::\w+)*", skel):
         if in_use(m.start()):
@@ -452,7 +530,14 @@ def wrapper_rows(parsed, sites):
                             sb = skel[a + 1:b]
                             k = sb.rfind(";")
                             rows.append(dict(file=rel, fn=n, kind="KPathFn", api="tail-expression", arg=norm(body[k + 1:]), bind="", arm=""))
-    # de-duplicate KPathFn rows
+    # where the locals of the path argument of each wrapper call come from
+    for r in [r for r in rows if r["kind"] in ("KWrapperCall", "KPathFn") and r["fn"] != "<module>"]:
+        code, skel, fns, depth = parsed[r["file"]]
+        cands = [f for f in fns if f[0] == r["fn"]]
+        if len(cands) != 1:
+            raise Shape("%s: %d functions named %s call a writing function" % (r["file"], len(cands), r["fn"]))
+        rows += local_rows(r["file"], code, skel, cands[0], [r["arg"]])
+    # de-duplicate KPathFn / KLocal rows
     uniq, seen = [], set()
     for r in rows:
         key = tuple(sorted(r.items()))
